@@ -249,6 +249,12 @@ func negotiateFeatures(ctx context.Context, s *Session, first, ws bool, features
 						// only with no negotiation, skip it.
 						continue
 					}
+					if s.state&v.feature.Necessary != v.feature.Necessary ||
+						s.state&v.feature.Prohibited != 0 {
+						// A feature negotiated earlier from this list changed the session
+						// state so that this feature's prerequisites no longer hold.
+						continue
+					}
 
 					// If the feature is optional, select it.
 					if !v.req {
